@@ -5,7 +5,6 @@ package main
 import (
 	"bytes"
 	"fmt"
-	"io"
 	"os"
 	"strconv"
 	"strings"
@@ -30,7 +29,20 @@ func c20Capture(fn func()) []byte {
 	old := os.Stdout
 	done := make(chan []byte, 1)
 	go func() {
-		b, _ := io.ReadAll(r)
+		// bounded in memory: an implementation that prints for ever (a looping goTo) must not fill the
+		// harness; everything beyond the cap is drained and dropped (the truncated answer mismatches)
+		const capBytes = 8 << 20
+		var b []byte
+		buf := make([]byte, 64<<10)
+		for {
+			n, err := r.Read(buf)
+			if n > 0 && len(b) < capBytes {
+				b = append(b, buf[:n]...)
+			}
+			if err != nil {
+				break
+			}
+		}
 		done <- b
 	}()
 	func() {
